@@ -21,7 +21,9 @@
 (*           offered the running tasks                                        *)
 (*   pools : sequence of [cap, av]; cap/av : sequence (one per worker, dict    *)
 (*           order) of vectors; av = what is free now (the pool is partially   *)
-(*           occupied).  The gating bound has exactly one worker per pool.    *)
+(*           occupied).  A Placement names the pool, not the worker: on a      *)
+(*           pool with several workers NoInversion quantifies over the         *)
+(*           assignments of the placed tasks to workers (RoomUnderAll).        *)
 (* answer    [order, place]                                                   *)
 (*   order : the task indices in the order their Placements were returned     *)
 (*   place : per task (offer index) [placed, pool, strat]; a task without a   *)
@@ -292,16 +294,56 @@ Feasible(I, a) ==
         LET S == OnPool(a, TaskIds(I), p)
         IN  Packs(StartAv(I)[p], S, [u \in S |-> Dem(I, u, a.place[u].strat)])
 
+\* Pools with several workers.  A pool-level Placement does not say which worker
+\* took the task.  An assignment f of the tasks S (demands d: their REPORTED
+\* strategies) to the workers of the pool is consistent if no worker is
+\* over-committed.  Whatever worker the policy's virtual pool chose for each placed
+\* task, that choice is one of the consistent assignments.
+Load(pav, S, d, f, w) == VSum({u \in S : f[u] = w}, d, Len(pav[w]))
+Assignments(pav, S, d) ==
+    {f \in [S -> 1..Len(pav)] : \A w \in 1..Len(pav) : VFits(pav[w], Load(pav, S, d, f, w))}
+\* some strategy fits some worker once the assignment f is accounted for
+RoomUnder(pav, S, d, f, strats) ==
+    \E w \in 1..Len(pav) : \E s \in 1..Len(strats) :
+        VFits(VSub(pav[w], Load(pav, S, d, f, w)), strats[s].dem)
+\* ... under EVERY consistent assignment (and there is one): the task had room
+\* whichever workers took the placed tasks.  If one consistent assignment leaves no
+\* room the pool does not show an inversion (not judged: counted by MWStats).
+RoomUnderAll(pav, S, d, strats) ==
+    LET A == Assignments(pav, S, d)
+    IN  A # {} /\ \A f \in A : RoomUnder(pav, S, d, f, strats)
+
+\* the placed tasks of higher or equal priority than t
+HiPlaced(K, I, a, t) == {u \in TaskIds(I) \ {t} : a.place[u].placed /\ HiEq(K, u, t)}
+ReportedDem(I, a, S) == [u \in S |-> Dem(I, u, a.place[u].strat)]
+
 \* A task is left unplaced only if none of its strategies fits any pool once
 \* the placed tasks of higher or equal priority are accounted for.
+\* Single-worker pool: the accounting is unique.  Pool with several workers: the
+\* task must have had room under every consistent accounting (RoomUnderAll).
 InvertedK(K, I, a, t) ==
     /\ ~a.place[t].placed
-    /\ LET hi == {u \in TaskIds(I) \ {t} : a.place[u].placed /\ HiEq(K, u, t)}
+    /\ LET hi == HiPlaced(K, I, a, t)
        IN  \E p \in PoolIds(I) :
-              LET S == OnPool(a, hi, p) \cup {t}
-              IN  \E s \in 1..Len(I.tasks[t].strats) :
-                     Packs(StartAv(I)[p], S,
-                           [u \in S |-> IF u = t THEN Dem(I, t, s) ELSE Dem(I, u, a.place[u].strat)])
+              IF Len(StartAv(I)[p]) = 1
+              THEN LET S == OnPool(a, hi, p) \cup {t}
+                   IN  \E s \in 1..Len(I.tasks[t].strats) :
+                          Packs(StartAv(I)[p], S,
+                                [u \in S |-> IF u = t THEN Dem(I, t, s) ELSE Dem(I, u, a.place[u].strat)])
+              ELSE LET H == OnPool(a, hi, p)
+                   IN  RoomUnderAll(StartAv(I)[p], H, ReportedDem(I, a, H), I.tasks[t].strats)
+
+\* the weaker reading on a pool with several workers (not a clause, a counter): the
+\* task has room under SOME consistent assignment of the placed tasks
+RoomUnderSomeK(K, I, a, t) ==
+    /\ ~a.place[t].placed
+    /\ LET hi == HiPlaced(K, I, a, t)
+       IN  \E p \in PoolIds(I) :
+              /\ Len(StartAv(I)[p]) > 1
+              /\ LET H == OnPool(a, hi, p)
+                     d == ReportedDem(I, a, H)
+                 IN  \E f \in Assignments(StartAv(I)[p], H, d) :
+                        RoomUnder(StartAv(I)[p], H, d, f, I.tasks[t].strats)
 
 Inverted(k, I, a, t) == InvertedK(Prios(k, I), I, a, t)
 
@@ -363,7 +405,7 @@ BoundOK ==
 (* vacuity counters (TLC registers; the runs use a single worker) *)
 Bump(r, cond) == IF cond THEN TLCSet(r, TLCGet(r) + 1) ELSE TRUE
 
-NStats == 13    \* 10..13 are bumped by UnitStats (records only)
+NStats == 17    \* 10..13 are bumped by UnitStats, 14..17 by MWStats (records only)
 Stats(k, I, a) ==
     LET T == TaskIds(I)
         K == Keys(k, I)
@@ -380,6 +422,21 @@ Stats(k, I, a) ==
         /\ Bump(8, \A t \in T : a.place[t].placed)
         \* an unplaced task that would fit the cluster as it is before the call
         /\ Bump(9, \E t \in T : ~a.place[t].placed /\ Choice(StartAv(I), I.tasks[t].strats) # <<0, 0>>)
+
+\* vacuity counters of the clause for pools with several workers
+MWStats(k, I, a) ==
+    LET T  == TaskIds(I)
+        Q  == Prios(k, I)
+        MW == {p \in PoolIds(I) : Len(StartAv(I)[p]) > 1}
+    IN  /\ Bump(14, MW # {})
+        /\ Bump(15, MW # {} /\ \E t \in T : ~a.place[t].placed)
+        \* the quantifier over assignments is not trivial: an unplaced task meets a pool
+        \* whose placed tasks of higher-or-equal priority can be accounted in several ways
+        /\ Bump(16, \E t \in T : ~a.place[t].placed /\ \E p \in MW :
+                        LET H == OnPool(a, HiPlaced(Q, I, a, t), p)
+                        IN  Cardinality(Assignments(StartAv(I)[p], H, ReportedDem(I, a, H))) > 1)
+        \* not judged: room under some consistent assignment, but not under all
+        /\ Bump(17, \E t \in T : RoomUnderSomeK(Q, I, a, t) /\ ~InvertedK(Q, I, a, t))
 
 StatsLine == PrintT("@@stats " \o ToString([r \in 1..(NStats + 1) |-> TLCGet(r)]))
 
@@ -524,4 +581,5 @@ RecChecked ==
     IN  /\ \A c \in F : PrintT("@@ " \o ToString(r.id) \o " " \o c \o " " \o ToString(Expected(c, r)))
         /\ IF wf THEN Stats(r.kind, r.inst, r.ans) /\ Bump(NStats + 1, "C13.plan_eq" \notin F) ELSE TRUE
         /\ IF wf /\ "harness.build" \notin F THEN UnitStats(r) ELSE TRUE
+        /\ IF wf THEN MWStats(r.kind, r.inst, r.ans) ELSE TRUE
 =============================================================================
